@@ -207,6 +207,45 @@ pub fn replay_file(prop: &str, path: &str) -> i32 {
     }
 }
 
+/// Reduced workloads replayed under Miri (`cargo +nightly miri run --bin mon -- miri <what>`): the
+/// same oracles, tiny sizes. Prints MIRI-RESULT lines; UB makes Miri itself abort with an error.
+pub fn miri_main(what: &str) -> i32 {
+    let ctx = Ctx { tier: crate::report::Tier::Quick, seed: 1, shards: 1 };
+    match what {
+        "c03" => {
+            let mut rep = Report::new("C03");
+            c03::run_scaled(ctx, &mut rep, true);
+            println!("MIRI-RESULT c03 evaluations={} violations={} frames={}", rep.evaluations, rep.violations.len(), rep.get("frames_decoded_in_fragmentation_runs") + rep.get("frames_decoded_from_arbitrary_strings"));
+            for v in rep.violations.iter().take(3) {
+                println!("MIRI-VIOLATION {} {}", v.signature(), v.detail);
+            }
+            if rep.violations.is_empty() { 0 } else { 1 }
+        }
+        "c01" => {
+            // a handful of small mux cases incl. a > 64 KiB chunk and an empty chunk
+            use crate::mempipe::{Frag, PipeCfg};
+            let mut bad = 0;
+            let mut bytes = 0u64;
+            let frag = PipeCfg { capacity: 300, write_frag: Frag::Random(200), read_frag: Frag::Pool(vec![1, 7, 8, 100]), pending_prob: 0.1, seed: 3 };
+            for (k, sizes) in [vec![10usize, 0, 300], vec![66000], vec![7, 8, 1]].into_iter().enumerate() {
+                for pc in [PipeCfg::plain(), frag.clone()] {
+                    let d = |w: u8, r: u8| mux::DirPlan { chunks: sizes.clone(), write_api: w, read_api: r, read_bufs: vec![50, 4096] };
+                    let case = mux::MuxCase { seed: k as u64, streams: vec![(d(0, 0), d(1, 1)), (d(2, 2), d(0, 0))], c2s: pc.clone(), s2c: pc, scheme: None, sched_p: 0.3, inline_first: true, locator: (0, k) };
+                    let res = mux::run_case(&case);
+                    bytes += res.bytes_checked;
+                    for (c, sym, det) in &res.problems {
+                        println!("MIRI-VIOLATION mux|{c}|{sym} {det}");
+                        bad += 1;
+                    }
+                }
+            }
+            println!("MIRI-RESULT c01 cases=6 bytes_compared={bytes} violations={bad}");
+            if bad == 0 { 0 } else { 1 }
+        }
+        _ => 2,
+    }
+}
+
 /// entry point for helper sub-processes (`mon child <what> ...`)
 pub fn child_main(args: &[String]) -> i32 {
     match args.first().map(|s| s.as_str()) {
